@@ -14,7 +14,7 @@ import (
 
 func init() {
 	checkers["C02"] = checker{
-		rule: "signed images: synthetic well-formed images signed by the library with one or two keys, and the sbsign-signed HelloWorld fixture; adversarial derivations of each: single-byte changes at positions drawn from every region (sampled; exhaustive for the smallest image in the thorough tier), transplant of the signature table onto another image, rewrites inside the PKCS#7 blob with lengths fixed up (the digest in SpcIndirectDataContent alone, digest + image together (the digest-swap forgery; the two-signer forgery: a changed image signed by a foreign key with the genuine signer entry appended behind), content, content type, certificates, messageDigest, signature, attributes), re-embedded as a fresh WIN_CERTIFICATE; verifying certificates: the signer's, another key under the same issuer+serial, same key other serial / issuer, unrelated; Parse(x).Verify(cert) runs in the sandboxed worker; R_C02 (extracted check_pe_verify) accepts a success only if some table entry is an Authenticode signature whose digest is the SHA-256 of the specification content of exactly these bytes and whose SignedData is valid for the certificate (R_C04); non-trivial = the image carries a table; distinct by (image, certificate) hash",
+		rule: "signed images: synthetic well-formed images signed by the library with one or two keys, and the sbsign-signed HelloWorld fixture; adversarial derivations of each: single-byte changes at positions drawn from every region (sampled; exhaustive for the smallest image in the thorough tier), transplant of the signature table onto another image, bytes appended behind the certificate table, rewrites inside the PKCS#7 blob with lengths fixed up (the digest in SpcIndirectDataContent alone, digest + image together (the digest-swap forgery, also with the signer entry's unsigned digest algorithm rewritten; the two-signer forgery: a changed image signed by a foreign key with the genuine signer entry appended behind), content, content type, certificates, messageDigest, signature, attributes), re-embedded as a fresh WIN_CERTIFICATE; verifying certificates: the signer's, another key under the same issuer+serial, same key other serial / issuer, unrelated; Parse(x).Verify(cert) runs in the sandboxed worker, also after other certificates were verified on the same parsed image; R_C02 (extracted check_pe_verify) accepts a success only if some table entry is an Authenticode signature whose digest is the SHA-256 of the specification content of exactly these bytes and whose SignedData is valid for the certificate (R_C04); non-trivial = the image carries a table; distinct by (image, certificate) hash",
 		run:  runC02,
 	}
 }
@@ -115,6 +115,11 @@ func runC02(c *Ctx) {
 			}
 		}
 		check("original", si.img, true)
+		// the verdict does not depend on what the same parsed image verified before
+		if twin := others["same-issuer-serial-other-key"]; twin != nil {
+			evalPEVerify(c, "C02/"+si.name+"/original-after-signer", "same-issuer-serial-other-key", si.img, twin, false, twin, si.seed.cert)
+			evalPEVerify(c, "C02/"+si.name+"/original-after-twin", "signer", si.img, si.seed.cert, false, twin)
+		}
 		if si.name != "library" && c.Quick() {
 			continue // a 55 KB image costs the extracted SHA-256 seconds per evaluation: thorough tier only
 		}
@@ -136,6 +141,12 @@ func runC02(c *Ctx) {
 			m := append([]byte{}, si.img...)
 			m[p] ^= byte(1 + rng.Intn(255))
 			check("byte-change/"+r.name, m, rng.Intn(6) == 0)
+		}
+		// bytes appended behind the certificate table (the directory entry no longer reaches the end of the file)
+		for _, n := range []int{1, 8, 4096} {
+			if n < 4096 || si.name == "library" {
+				check(fmt.Sprintf("appended-after-table/%d", n), append(append([]byte{}, si.img...), randBytes(rng, n)...), false)
+			}
 		}
 		// transplant onto another image
 		if len(images) > 1 {
@@ -161,6 +172,18 @@ func runC02(c *Ctx) {
 					if d := root.at(1, 0, 2, 1, 0, 1, 1); d != nil && d.tag == 0x04 && len(d.val) == 32 {
 						d.val = newDigest
 						check("digest-swap-forgery", rebuildWithBlobs(m, append([][]byte{root.encode()}, si.blobs[1:]...)), false)
+						// ... and with the fields no signature covers rewritten as well (digest algorithm of the signer entry)
+						if sd := sdOf(root); sd != nil {
+							for i, ch := range sd.children {
+								if ch.tag == 0x31 && i >= 2 && len(ch.children) > 0 {
+									if o := ch.children[0].at(2, 0); o != nil && o.tag == 0x06 && len(o.val) > 0 {
+										o.val = append([]byte{}, o.val...)
+										o.val[len(o.val)-1]++
+										check("digest-swap-forgery+signer-digestalg", rebuildWithBlobs(m, append([][]byte{root.encode()}, si.blobs[1:]...)), false)
+									}
+								}
+							}
+						}
 					}
 				}
 			}
